@@ -146,6 +146,11 @@ class Interp:
             v = mod.assigns[name][0]
             if isinstance(v, ast.Call) and norm(v.func) == 're.compile':
                 self.globals[name] = ARegex(name)
+        try:
+            for name in mod.regexes():          # also regexes built by a factory function / f-string (constant-folded by the loader)
+                self.globals.setdefault(name, ARegex(name))
+        except Exception:
+            pass
         for name, fn in mod.funcs.items():
             if '.' not in name:
                 self.globals[name] = ModuleFunc(fn)
@@ -746,6 +751,11 @@ class Interp:
                 v = other.assigns[name][0]
                 if isinstance(v, ast.Call) and norm(v.func) == 're.compile':
                     sub.globals[name] = ARegex(name)
+            try:
+                for name in other.regexes():
+                    sub.globals.setdefault(name, ARegex(name))
+            except Exception:
+                pass
             for name, f in other.funcs.items():
                 if '.' not in name:
                     sub.globals[name] = ModuleFunc(f)
@@ -926,13 +936,15 @@ class Interp:
         r = self.method_hook(base, m, args, e)
         if r is not NotImplemented:
             return r
-        if isinstance(base, tuple) and base and base[0] == 'module':
+        if isinstance(base, tuple) and base and base[0] in ('module', 'hostattr'):
             r = self.host_function(f'{base[1]}.{m}', args, e)
             if r is not NotImplemented:
                 return r
         if isinstance(base, ARegex):
             if m == 'match':
                 line = args[0]
+                if base.name == '<anonymous>':
+                    raise Unrecognised(self.rule, f'match() of a regex that is not a module-level constant: {norm(e)[:70]}', self.mod.rel)
                 if isinstance(line, ALine):
                     return AMatch(base.name, line) if (line.regex == base.name or base.name in line.also) else None
                 return Sym('match', base.name, line)
